@@ -155,6 +155,20 @@ Definition outer_cycles (c : cfg) (pat_sc pat_lr : list Z) (n : Z)
   map (fun k => let ck := cfg_at c pat_sc pat_lr k in
               fine_cycle_from (cfg_at c pat_sc pat_lr 0) (fuel_for ck) ck) (zrange n).
 
+(* The same n cycles run as CALLS of m cycles each (multigrid as preconditioner:
+   every call ends through the cycle limit).  Whether the directions advance in
+   the last cycle of a call is read off solver.py: flag
+   [dirs_advance_before_terminate] (the hand-over statements precede the
+   `if _terminate(..): break`).  If they did not, global cycle k would use
+   pattern index k - k/m. *)
+Definition dir_index_of (advance_always : bool) (m k : Z) : Z :=
+  if advance_always then k else k - k / m.
+Definition dir_index (m k : Z) : Z := dir_index_of dirs_advance_before_terminate m k.
+Definition outer_cycles_calls (c : cfg) (pat_sc pat_lr : list Z) (m n : Z)
+  : list (option (list ev)) :=
+  map (fun k => let ck := cfg_at c pat_sc pat_lr (dir_index m k) in
+              fine_cycle_from (cfg_at c pat_sc pat_lr 0) (fuel_for ck) ck) (zrange n).
+
 (* --- smoother dispatch --------------------------------------------------- *)
 (* does the smoother selected for shape s relax lines along direction d ? *)
 Definition lines_along (c_lr : Z) : bool * bool * bool :=
